@@ -163,3 +163,12 @@ theories/Populate/CopyChunkProofs.vos theories/Populate/CopyChunkProofs.vok theo
 theories/Properties_C18.vo theories/Properties_C18.glob theories/Properties_C18.v.beautified theories/Properties_C18.required_vo: theories/Properties_C18.v theories/Populate/CopyChunk.vo theories/Populate/CopyChunkProofs.vo
 theories/Properties_C18.vio: theories/Properties_C18.v theories/Populate/CopyChunk.vio theories/Populate/CopyChunkProofs.vio
 theories/Properties_C18.vos theories/Properties_C18.vok theories/Properties_C18.required_vos: theories/Properties_C18.v theories/Populate/CopyChunk.vos theories/Populate/CopyChunkProofs.vos
+theories/Qcow2/QcowIndex.vo theories/Qcow2/QcowIndex.glob theories/Qcow2/QcowIndex.v.beautified theories/Qcow2/QcowIndex.required_vo: theories/Qcow2/QcowIndex.v 
+theories/Qcow2/QcowIndex.vio: theories/Qcow2/QcowIndex.v 
+theories/Qcow2/QcowIndex.vos theories/Qcow2/QcowIndex.vok theories/Qcow2/QcowIndex.required_vos: theories/Qcow2/QcowIndex.v 
+theories/Qcow2/QcowProofs.vo theories/Qcow2/QcowProofs.glob theories/Qcow2/QcowProofs.v.beautified theories/Qcow2/QcowProofs.required_vo: theories/Qcow2/QcowProofs.v theories/Qcow2/QcowIndex.vo
+theories/Qcow2/QcowProofs.vio: theories/Qcow2/QcowProofs.v theories/Qcow2/QcowIndex.vio
+theories/Qcow2/QcowProofs.vos theories/Qcow2/QcowProofs.vok theories/Qcow2/QcowProofs.required_vos: theories/Qcow2/QcowProofs.v theories/Qcow2/QcowIndex.vos
+theories/Properties_C19.vo theories/Properties_C19.glob theories/Properties_C19.v.beautified theories/Properties_C19.required_vo: theories/Properties_C19.v theories/Qcow2/QcowIndex.vo theories/Qcow2/QcowProofs.vo
+theories/Properties_C19.vio: theories/Properties_C19.v theories/Qcow2/QcowIndex.vio theories/Qcow2/QcowProofs.vio
+theories/Properties_C19.vos theories/Properties_C19.vok theories/Properties_C19.required_vos: theories/Properties_C19.v theories/Qcow2/QcowIndex.vos theories/Qcow2/QcowProofs.vos
